@@ -222,9 +222,9 @@ class StochasticSolver(ABC):
         main_time = time.perf_counter() - main_start
 
         info = {
-            "f_est_trace": fest_trace[0 : n_epoch + 1],
-            "step_trace": step_trace[0 : n_epoch + 1],
-            "time_trace": time_trace[0 : n_epoch + 1],
+            "f_est_trace": fest_trace[0 : n_epoch + 2],
+            "step_trace": step_trace[0 : n_epoch + 2],
+            "time_trace": time_trace[0 : n_epoch + 2],
             "n_epoch": n_epoch,
         }
 
